@@ -24,9 +24,9 @@ QUERY = {"atlas": "ds.Select(lambda e: e.EventInfo('EventInfo').runNumber())",
          "cms_aod": "ds.Select(lambda e: e.Muons('A').Count())", "cms_miniaod": "ds.Select(lambda e: e.Muons('A').Count())"}
 BUILD_TOOLS = {"atlas": ["cmake", "make"], "cms_aod": ["mkedanlzr", "scram"], "cms_miniaod": ["mkedanlzr", "scram"]}
 JOB_TOOL = {"atlas": "python", "cms_aod": "cmsRun", "cms_miniaod": "cmsRun"}
-STEPS = {"atlas": ["release_setup", "cmake", "make", "externals_setup", "python", "sudo"] + [f"cp@{k}" for k in range(1, 7)],
-         "cms_aod": ["cms_entrypoint", "mkedanlzr", "scram", "cmsRun", "root"] + [f"cp@{k}" for k in range(1, 5)],
-         "cms_miniaod": ["cms_entrypoint", "mkedanlzr", "scram", "cmsRun", "root"] + [f"cp@{k}" for k in range(1, 5)]}
+STEPS = {"atlas": ["release_setup", "cmake", "make", "externals_setup", "python", "python+late", "sudo"] + [f"cp@{k}" for k in range(1, 7)],
+         "cms_aod": ["cms_entrypoint", "mkedanlzr", "scram", "cmsRun", "cmsRun+late", "root"] + [f"cp@{k}" for k in range(1, 5)],
+         "cms_miniaod": ["cms_entrypoint", "mkedanlzr", "scram", "cmsRun", "cmsRun+late", "root"] + [f"cp@{k}" for k in range(1, 5)]}
 DEFAULT_LIST = "/data/default1.root\n/data/default2.root\n"
 
 
@@ -128,7 +128,7 @@ def judge(backend: str, sc: Scenario, i: int, step: Dict[str, Any], res: Dict[st
             return f"bad command line {step['args']}: tools were still run ({tools}) or files delivered {list(res['changed'])}"
         return None
     fail = step["fail"]
-    ft = fail.split("@")[0]
+    ft = fail.split("@")[0].replace("+late", "")
     fk = int(fail.split("@")[1]) if "@" in fail else None
     n_ft = tools.count(ft)
     injected = bool(fail) and (n_ft >= (fk or 1))
